@@ -374,6 +374,10 @@ class MainWiring(Contract):
     tu_filter = 'main'
     tags = {'C03', 'C04', 'C05', 'C06', 'C08', 'C10', 'C12', 'C19'}
 
+    def replay(self, o, model, pid):
+        sc = {'C10': ['records'], 'C12': ['cadence'], 'C19': ['rfkicks', 'cadence']}.get(pid)
+        return {'driver': 'main', 'scenarios': sc} if sc else None
+
     # class -> list of (label, expected variable per leading constructor argument, tags)
     EXPECT = {
         'WakePotentialMap': [('wake_map', ['grid_t1', 'grid_t2', 'wake_field', 'interpolationtype', 'interpol_clamp'], {'C05', 'C12', 'C08'})],
